@@ -93,7 +93,7 @@ Example share_vs_cut_resolver_total_hypotheses :
 Proof. split; [vm_compute; reflexivity|]. intros []; vm_compute; reflexivity. Qed.
 Example ex_same_payload : same_payload exC exD ex_orig.
 Proof.
-  intros x key v Hx. cbn in Hx. repeat destruct Hx as [<-|Hx]; try contradiction; vm_compute; exact (fun H => H).
+  intros x key v Hx _. cbn in Hx. repeat destruct Hx as [<-|Hx]; try contradiction; vm_compute; exact (fun H => H).
 Qed.
 
 (** every hypothesis of ShareCutFull.share_vs_cut_resolver_full holds on the example (with exCD_hypotheses,
